@@ -62,6 +62,9 @@ pub fn programs() -> Vec<Prog> {
         p("ctl-check-all-mixed", vec!["n(1); n(2);"], "check all n($x), $x > 1; check all n($x), $x > 0; allow if true;", vec![]),
         p("ctl-heterogeneous-equal", vec![], "n(1); n(\"a\"); n(true); check if n($x), $x == \"a\"; check if n($x), $x == 2; allow if true;", vec!["q($x) <- n($x), $x != 1"]),
         p("ctl-two-erring-rules-same-kind", vec![], "n(0); r($x) <- n($x), 10 / $x > 0; s($x) <- n($x), 5 / $x > 0; allow if true;", vec![]),
+        p("ctl-same-fact-nested-origins", vec!["n(1); r($x) <- n($x); check if r(1);", "r($x) <- n($x); check if r(1);"], "check if r(1); allow if r(1); deny if true;", vec!["q($x) <- r($x)"]),
+        p("ctl-same-fact-three-origins", vec!["n(1); n(2); r($x) <- n($x);", "r($x) <- n($x); n(3);", "r($x) <- n($x) trusting previous; check if r(3);"], "r($x) <- n($x); check if r(1); check all r($x), $x < 3; allow if r(2); deny if true;", vec!["q($x) <- r($x)", "q($x) <- r($x) trusting previous"]),
+        p("ctl-same-fact-via-two-rules", vec!["n(1); a($x) <- n($x); r($x) <- a($x);", "r($x) <- n($x); reject if r(2);"], "reject if r(5); check if r(1); allow if true;", vec!["q($x) <- r($x)"]),
         p("ctl-all-bindings-err", vec![], "n(0); check if n($x), 10 / $x > 0; allow if true;", vec![]),
         // --- programs where some bindings make an expression fail
         p("check-if/erroring+matching-binding", vec![], "n(0); n(1); n(2); check if n($x), 10 / $x > 0; allow if true;", vec![]),
